@@ -1,3 +1,5 @@
+//go:build verif_c06
+
 package main
 
 // C06 generator, twin-workbook oracles (insert/remove identity, DuplicateRowTo,
